@@ -557,7 +557,24 @@ class BranchBuilder(AstVisitor[None]):
         # Support chained comparisons, e.g. `x <= 5 < y` by compiling to `x <= 5 and
         # 5 < y`. This way we get short-circuit evaluation for free.
         if len(node.comparators) > 1:
-            comparators = [node.left, *node.comparators]
+            # Operands in the middle of the chain occur in two comparisons but must be
+            # evaluated only once, so anything that isn't a plain name or constant is
+            # bound to a temporary in its first comparison and read back in the second
+            lefts: list[ast.expr] = [node.left]
+            rights: list[ast.expr] = []
+            for mid in node.comparators[:-1]:
+                if isinstance(mid, ast.Name | ast.Constant):
+                    lefts.append(mid)
+                    rights.append(mid)
+                else:
+                    tmp = next(tmp_vars)
+                    rights.append(
+                        with_loc(
+                            mid, ast.NamedExpr(target=make_var(tmp, mid), value=mid)
+                        )
+                    )
+                    lefts.append(make_var(tmp, mid))
+            rights.append(node.comparators[-1])
             values = [
                 ast.Compare(
                     left=left,
@@ -568,9 +585,7 @@ class BranchBuilder(AstVisitor[None]):
                     end_lineno=right.end_lineno,
                     end_col_offset=right.end_col_offset,
                 )
-                for left, op, right in zip(
-                    comparators[:-1], node.ops, comparators[1:], strict=True
-                )
+                for left, op, right in zip(lefts, node.ops, rights, strict=True)
             ]
             conj = ast.BoolOp(op=ast.And(), values=values)
             set_location_from(conj, node)
